@@ -223,7 +223,10 @@ type SignKey struct {
 	Alg  jose.SignatureAlgorithm
 	Priv any
 	Pub  any
+	Use  string // published "use"; "" means "sig" (UseEmpty publishes no use at all)
 }
+
+const UseEmpty = "-"
 
 type signingKey struct{ k *SignKey }
 
@@ -235,8 +238,16 @@ type publicKey struct{ k *SignKey }
 
 func (p publicKey) ID() string                         { return p.k.KID }
 func (p publicKey) Algorithm() jose.SignatureAlgorithm { return p.k.Alg }
-func (p publicKey) Use() string                        { return "sig" }
-func (p publicKey) Key() any                           { return p.k.Pub }
+func (p publicKey) Use() string {
+	switch p.k.Use {
+	case "":
+		return "sig"
+	case UseEmpty:
+		return ""
+	}
+	return p.k.Use
+}
+func (p publicKey) Key() any { return p.k.Pub }
 
 // ExchangePolicy is the storage policy of the token-exchange grant.
 type ExchangePolicy struct {
